@@ -70,16 +70,20 @@ impl HeaderCase {
                     declared.push((*n, v));
                 } else {
                     let (v, _) = legal_header_value(rng);
-                    let v = match rng.below(4) {
-                        0 => String::new(),
-                        1 => format!(" {v}"),
-                        2 => format!("{v}\t"),
+                    let v = match rng.below(3) {
+                        0 => format!(" {v}"),
+                        1 => format!("{v}\t"),
                         _ => format!("{v} "),
                     };
                     decl_kind = "borderline";
                     classes.push("borderline".to_string());
                     declared.push((*n, v));
                 }
+            } else if rng.chance(1, 10) {
+                // the empty string is a legal field value (RFC 9110: field-value =
+                // *field-content): the header must be present, with an empty value
+                classes.push("empty".to_string());
+                declared.push((*n, String::new()));
             } else {
                 let (v, c) = legal_header_value(rng);
                 classes.push(c.to_string());
@@ -407,6 +411,8 @@ fn inproc_typed<T: BodyGen>(rep: &mut Report, rng: &mut Rng, ctx: Value) {
     for (_, v) in &hc.declared {
         let c = if !legal_field_value(v.as_bytes()) {
             "illegal"
+        } else if v.is_empty() {
+            "legal-empty"
         } else if borderline_field_value(v.as_bytes()) {
             "borderline"
         } else if v.bytes().any(|b| b >= 0x80) {
@@ -448,9 +454,9 @@ fn inproc_nobody(rep: &mut Report, rng: &mut Rng, ctx: Value) {
     }
 }
 
-/// (location, "legal:<class>" | "illegal:<class>" | "borderline")
+/// (location, "legal:<class>" | "illegal:<class>" | "empty" | "borderline")
 pub fn gen_location(rng: &mut Rng, live: bool) -> (String, String) {
-    match rng.below(if live { 9 } else { 10 }) {
+    match rng.below(if live { 10 } else { 11 }) {
         0..=4 => {
             let (v, c) = legal_header_value(rng);
             (v, format!("legal:{c}"))
@@ -465,12 +471,14 @@ pub fn gen_location(rng: &mut Rng, live: bool) -> (String, String) {
             let (v, c) = illegal_header_value(rng);
             (v, format!("illegal:{c}"))
         }
+        // the empty location: the constructor may refuse it (not classed), but a
+        // redirect it accepts must carry a Location header, with the empty value
+        9 => (String::new(), "empty".into()),
         _ => {
             let (v, _) = legal_header_value(rng);
-            let v = match rng.below(4) {
-                0 => String::new(),
-                1 => format!(" {v}"),
-                2 => format!("{v}\t"),
+            let v = match rng.below(3) {
+                0 => format!(" {v}"),
+                1 => format!("{v}\t"),
                 _ => format!("{v} "),
             };
             (v, "borderline".into())
@@ -502,7 +510,8 @@ fn inproc_redirect(rep: &mut Report, rng: &mut Rng, ctx: Value) {
     headers.insert("location".into(), vec![loc.clone().into_bytes()]);
     let exp = Expect { kind, status, body: None, headers };
     let legal = legal_field_value(loc.as_bytes());
-    let borderline = borderline_field_value(loc.as_bytes());
+    let empty = loc.is_empty();
+    let borderline = !empty && borderline_field_value(loc.as_bytes());
 
     macro_rules! go {
         ($ctor:ident) => {{
@@ -518,7 +527,9 @@ fn inproc_redirect(rep: &mut Report, rng: &mut Rng, ctx: Value) {
                 Ok(Err(e)) => {
                     rep.eval(class);
                     rep.count("redirect-constructor-err", 1);
-                    if legal && !borderline {
+                    if empty {
+                        rep.count("redirect-empty-location-refused-by-constructor", 1);
+                    } else if legal && !borderline {
                         rep.violate(
                             format!("C12:redirect-constructor-refuses-legal-location:{kind}"),
                             json!({"case": ctx, "error_internal": e.internal_message}),
@@ -540,10 +551,13 @@ fn inproc_redirect(rep: &mut Report, rng: &mut Rng, ctx: Value) {
                             json!({"case": ctx, "afterwards": later}),
                         );
                     } else if borderline {
-                        // leading/trailing blank or empty: not classed either way
+                        // leading/trailing blank: not classed either way
                         rep.eval(class);
                         rep.count("redirect-borderline-location-accepted", 1);
                     } else {
+                        if empty {
+                            rep.count("redirect-empty-location-accepted", 1);
+                        }
                         hc.apply_explicit(r.headers_mut());
                         finish(rep, r, &exp, "legal", class, &ctx);
                     }
@@ -918,6 +932,17 @@ pub fn live_client(rep: &mut Report, addr: std::net::SocketAddr, seed: u64, shar
         let seen = Seen { status: resp.status, headers: resp.headers.clone(), body: resp.body.clone() };
         let mut ctx = ctx;
         ctx["path"] = json!(path);
+        // the empty location may be refused by the constructor (an error status,
+        // not classed); when a redirect is sent it must carry the empty Location
+        let exp = if class.contains("|location:empty|") && resp.status >= 400 {
+            rep.count("empty-location-refused-with-error-status", 1);
+            if resp.wants_close() {
+                conn = None;
+            }
+            continue;
+        } else {
+            exp
+        };
         match exp {
             Some(exp) => {
                 let ok = judge(rep, &exp, &seen, &ctx);
